@@ -278,6 +278,9 @@ func (c *Ctx) Finish() int {
 	if len(kh) > 0 {
 		cov["known_finding_matches"] = kh
 	}
+	if c.assume == nil {
+		c.assume = []string{}
+	}
 	ev := map[string]any{
 		"property_id": c.Prop,
 		"tier":        map[bool]string{true: "quick", false: "thorough"}[c.Quick()],
